@@ -53,6 +53,18 @@ class AList(list):
         self.extra = extra
 
 
+CLASS_METHODS = {}     # abstract class name -> names of methods / properties of the real class(es) it stands for
+
+
+def register_class(name, repo, *classinfos):
+    """an attribute of an abstract object that exists on the real class but has no summary is a modelling
+    gap (Undecided), not an AttributeError of the analysed program"""
+    names = CLASS_METHODS.setdefault(name, set())
+    for ci in classinfos:
+        for c in repo.mro(ci):
+            names |= set(c.methods) | set(c.getters) | set(c.setters)
+
+
 class Raised(Exception):
     def __init__(self, exc):
         self.exc = exc
@@ -344,7 +356,7 @@ class Abs:
                 return ("bound", m, base)
             if base.attrs.get("__open__"):
                 return ("method", attr)      # any other attribute of an open object is an opaque bound method
-            if base is self.self_obj and attr in self.class_methods:
+            if (base is self.self_obj and attr in self.class_methods) or attr in CLASS_METHODS.get(base.cls, ()):
                 raise Undecided("no summary for %s.%s" % (base.cls, attr))
             raise Raised("AttributeError(%s.%s)" % (base.cls, attr))
         if isinstance(base, dict) and attr in ("items", "keys", "values", "get", "update", "copy"):
